@@ -13,6 +13,11 @@ TraceInit == tid \in 1..N /\ l = 2
 TraceNext == /\ l <= Len(T) /\ l' = l + 1 /\ UNCHANGED tid
              /\ \/ E.ev = "OBS" /\ (E.negotiated => SemanticsMatch(T[1].tokens, E))
                 \/ E.ev = "SEL" /\ (E.accepted => DefinedAt(T[1].tokens, E.ver))
+                \* MC: a server holding several key pairs (default + virtual host) chose the suite named in CFG and
+                \* presented a certificate with key type E.certKey: suite and certificate must fit together
+                \/ E.ev = "MC" /\ DefinedAt(T[1].tokens, E.ver)
+                                /\ (E.ver < 4 /\ CertKey(T[1].tokens) \notin {"none", "any"} => E.certKey = CertKey(T[1].tokens))
+                                /\ (E.ver < 4 => E.ske = HasSKE(T[1].tokens))
 Mark == IF l - 1 > TLCGet(tid) THEN TLCSet(tid, l - 1) ELSE TRUE
 ASSUME \A i \in 1..N : TLCSet(i, 0)
 Rejected == { i \in 1..N : TLCGet(i) # Len(Traces[i]) }
